@@ -352,6 +352,33 @@ theorem pav_rename (p : Profile) (hwf : WF p) (n : Nat) :
 
 end
 
+/-! ### renamed ballots re-listed (e.g. re-sorted by the new ids) -/
+
+/-- **SPAV: candidate names do not matter**, the renamed ballots given in any order, each listing its candidates in any
+    order: the same refusal, or the elected list renamed, in the same order -/
+theorem spav_rename_same {σ : Cand → Cand} (hσ : Function.Injective σ) (p p' : Profile) (hwf : WF p) (hwf' : WF p')
+    (h : ApprSame p' (renAppr σ p)) (n : Nat) : spav p' n = (spav p n).map (List.map σ) := by
+  rw [spav_same h hwf' (appr_wf_ren hσ hwf) n, spav_rename hσ p hwf n]
+
+/-- **PAV: candidate names do not matter**, the renamed ballots given in any order, each listing its candidates in any
+    order: the same refusal, or the renamed committee up to `SlotsEquiv` -/
+theorem pav_rename_same {σ : Cand → Cand} (hσ : Function.Injective σ) (p p' : Profile) (hwf : WF p) (hwf' : WF p')
+    (h : ApprSame p' (renAppr σ p)) (n : Nat) :
+    ExceptEquiv (fun r' r => SlotsEquiv r' (r.map (renSlot σ))) (pav p' n) (pav p n) := by
+  rw [pav_same h hwf' (appr_wf_ren hσ hwf) n]
+  exact pav_rename hσ p hwf n
+
+example : ApprSame [([3, 7], 5), ([5, 7], 4), ([1], 3)]
+    (renAppr (fun c => if c = 0 then 7 else if c = 1 then 3 else if c = 2 then 5 else if c = 3 then 1 else c + 10)
+      [([0, 1], 5), ([0, 2], 4), ([3], 3)]) := by decide +kernel
+
+/-- the renaming of the examples below is injective and not monotone -/
+example : Function.Injective
+    (fun c : Nat => if c = 0 then 7 else if c = 1 then 3 else if c = 2 then 5 else if c = 3 then 1 else c + 10) := by
+  intro a b h
+  simp only at h
+  split_ifs at h <;> omega
+
 /-- non-vacuity: a renaming that is not monotone (0 ↦ 7, 1 ↦ 3, 2 ↦ 5, 3 ↦ 1) -/
 example : spav (renAppr (fun c => if c = 0 then 7 else if c = 1 then 3 else if c = 2 then 5 else if c = 3 then 1 else c + 10)
     [([0, 1], 5), ([0, 2], 4), ([3], 3)]) 3 = .ok [7, 1, 3] := by decide +kernel
